@@ -48,6 +48,16 @@ def single_defs(fn_node):
                 ):
                     for x, v in zip(t.elts, n.value.elts):
                         bump(x.id, v)
+                elif (
+                    isinstance(t, ast.Tuple)
+                    and isinstance(n.value, (ast.Name, ast.Attribute))
+                    and all(isinstance(x, ast.Name) for x in t.elts)
+                    and len(n.targets) == 1
+                ):
+                    # `a, b = seq` with a side-effect-free sequence expression: a = seq[0], b = seq[1]
+                    for i, x in enumerate(t.elts):
+                        sub = ast.Subscript(value=copy.deepcopy(n.value), slice=ast.Constant(value=i), ctx=ast.Load())
+                        bump(x.id, ast.copy_location(sub, n.value))
                 else:
                     for x in ast.walk(t):
                         if isinstance(x, ast.Name) and isinstance(x.ctx, ast.Store):
